@@ -464,6 +464,7 @@ func (c15pcap) Gen(rng *rand.Rand, tier string) []Case {
 				emit(f, s)
 				// the stream simply ends at k (truncated file), whole and one byte at a time
 				emit(f, c15Spec{zc: zc, chunks: [][]byte{f.data[:k]}, tags: []string{"truncated"}, nCalls: c15Calls(format, len(f.data))})
+				emit(f, c15Spec{zc: !zc, chunks: [][]byte{f.data[:k]}, tags: []string{"truncated"}, nCalls: c15Calls(format, len(f.data))})
 				if k%5 == 0 {
 					emit(f, c15Spec{zc: zc, chunks: c15OneByte(f.data[:k]), de: true, tags: []string{"truncated", "short-read-chunking"}, nCalls: c15Calls(format, len(f.data))})
 				}
